@@ -162,8 +162,10 @@ class Run:
             self.ctor_exc = type(ex).__name__
         self.ctor_out = buf.getvalue()
         self.valid = bool(self.s and self.s.pfdl_file_valid)
+        self.var_gen = 0
+        self.stale_var = []
         if self.s is not None:
-            self.s.register_variable_access_function(self.var)
+            self.s.register_variable_access_function(self.access_function(0))
 
     # recording ---------------------------------------------------------------------------
     def ev(self, e):
@@ -173,6 +175,18 @@ class Run:
         """the running flag as an application sees it from inside a callback"""
         if self.s is not None and self.s.running is not True and self.not_running is not None and len(self.not_running) < 3:
             self.not_running.append(what)
+
+    def access_function(self, gen):
+        """the variable access function of generation `gen` (a new function object per registration)"""
+        def access(name, ctx):
+            if gen != self.var_gen and len(self.stale_var) < 3:
+                self.stale_var.append("variable %r is asked from the access function registered first although another one has been registered since" % name)
+            return self.var(name, ctx)
+        return access
+
+    def reregister_access_function(self):
+        self.var_gen += 1
+        return self._call({"op": "revar"}, lambda: self.s.register_variable_access_function(self.access_function(self.var_gen)))
 
     def var(self, name, ctx):
         self.observe_running("variable query %r" % name)
@@ -262,6 +276,8 @@ class Run:
             rec["exc_msg"] = str(ex)[:200]
         self.cur = outer
         rec["stdout"] = buf.getvalue()[:300]
+        if self.stale_var:
+            rec["stale_var"] = list(self.stale_var)
         rec.update(self.snapshot())
         self.calls.append(rec)
         return rec
